@@ -71,6 +71,31 @@ def contains (T : Table) (t : Tree) : List Int := (AMap.keys T).filter (satDoc T
 /-- NotContains / NotEq: every known document (indexed or not) that does not satisfy the query -/
 def notContains (T : Table) (t : Tree) : List Int := (AMap.keys T).filter (fun d => !satDoc T t d)
 
+/-! ### bookkeeping (C06) -/
+
+/-- docid ↦ the text (or "no text") it was last indexed with -/
+abbrev Texts := AMap Int (Option (List Str))
+
+def stepX (X : Texts) : Op → Texts
+  | .index d v => AMap.set X d v
+  | .unindex d => AMap.erase X d
+  | .reset => []
+
+/-- the current docid ↦ text mapping of a history -/
+def texts (h : List Op) : Texts := h.foldl stepX []
+
+/-- a fresh index is built by indexing the current mapping once -/
+def freshOps (X : Texts) : List Op := X.map (fun p => Op.index p.1 p.2)
+
+/-- the distinct words of the documents that currently have text -/
+def wordsInUse (T : Table) : List Str :=
+  LSet.union [] ((AMap.keys T).flatMap (fun d => (tokensOf T d).getD []))
+
+/-- total number of tokens of the documents that currently have text -/
+def sumLens : Table → Nat
+  | [] => 0
+  | (_, v) :: rest => ((v.map List.length).getD 0) + sumLens rest
+
 /-- the word is a fixed point of the (plain) pipeline -/
 def stableWord (cfg : Cfg) (w : Str) : Bool := Lex.runPipeline cfg.tables cfg.pipeline [w] == [w]
 
